@@ -14,6 +14,9 @@ type c10Cfg struct {
 	minCwnd uint32
 	arwnd   uint32
 	il      bool
+	// cbWrite: an OnBufferedAmountLow callback writes one more message (at most 3 times): new
+	// data enters the association in the middle of SACK processing
+	cbWrite bool
 }
 
 // c10 events
@@ -83,6 +86,16 @@ func c10Scenario(cfg c10Cfg, seq []int) *Scenario {
 			m.streamsSeen = append(m.streamsSeen, s)
 			P := int(a.maxPayloadSize)
 			mtu := a.MTU()
+			if cfg.cbWrite {
+				n := 0
+				s.SetBufferedAmountLowThreshold(uint64(P))
+				s.OnBufferedAmountLow(func() {
+					if n < 3 {
+						n++
+						_, _ = s.WriteSCTP(payload(1, 900+n, 2*P), PayloadTypeWebRTCBinary)
+					}
+				})
+			}
 			floor := mtu
 			if cfg.minCwnd > floor {
 				floor = cfg.minCwnd
@@ -100,6 +113,9 @@ func c10Scenario(cfg c10Cfg, seq []int) *Scenario {
 				switch ev {
 				case evW1, evWP, evW3, evW12, evWP8:
 					size := map[int]int{evW1: 1, evWP: P, evW3: 3 * P, evW12: 12 * P, evWP8: P + 8}[ev]
+					if mm := int(a.MaxMessageSize()); size > mm {
+						size = mm
+					}
 					if _, err := s.WriteSCTP(payload(1, nmsg, size), PayloadTypeWebRTCBinary); err != nil {
 						m.Failf("flow.write", "write failed: %v", err)
 					}
@@ -268,6 +284,9 @@ func propC10(j *Job) {
 			}
 		}
 	}
+	if j.Thorough() {
+		cfgs = append(cfgs, c10Cfg{mtu: 6000, arwnd: 1 << 20}, c10Cfg{mtu: 4381, arwnd: 1 << 20, il: true}, c10Cfg{mtu: 1191, arwnd: 1500, cbWrite: true}, c10Cfg{mtu: 100, arwnd: 1500, cbWrite: true, il: true})
+	}
 	bases := [][]int{{}, {evW1, evSackAll}, {evW1, evSackAll, evW12, evTimer}, {evW12, evSackGap, evSackGap},
 		// a timeout, then gap reports without cumulative progress (fast recovery raises the
 		// collapsed window), then the backed-off second expiry
@@ -305,7 +324,7 @@ func propC10(j *Job) {
 					if !hasW {
 						return
 					}
-					j.Explore(fmt.Sprintf("F/mtu%d/min%d/rw%d/il%v/%v", cfg.mtu, cfg.minCwnd, cfg.arwnd, cfg.il, s), c10Scenario(cfg, s), Budget{}, nil)
+					j.Explore(fmt.Sprintf("F/mtu%d/min%d/rw%d/il%v/cb%v/%v", cfg.mtu, cfg.minCwnd, cfg.arwnd, cfg.il, cfg.cbWrite, s), c10Scenario(cfg, s), Budget{}, nil)
 					return
 				}
 				for e := 0; e < nC10Events; e++ {
@@ -314,6 +333,54 @@ func propC10(j *Job) {
 				}
 			}
 			rec(0)
+		}
+	}
+	if !j.Thorough() {
+		// configurations outside the main grid, depth 3 from the empty history
+		for _, cfg := range []c10Cfg{{mtu: 6000, arwnd: 1 << 20}, {mtu: 1191, arwnd: 3000, cbWrite: true}, {mtu: 100, arwnd: 1500, cbWrite: true, il: true}} {
+			seq := make([]int, 3)
+			var rec func(i int)
+			rec = func(i int) {
+				if j.capped() {
+					return
+				}
+				if i == len(seq) {
+					if seq[0] > evW12 && seq[0] != evWP8 && seq[0] != evW1x6 {
+						return
+					}
+					sq := append([]int(nil), seq...)
+					j.Explore(fmt.Sprintf("F/mtu%d/min%d/rw%d/il%v/cb%v/%v", cfg.mtu, cfg.minCwnd, cfg.arwnd, cfg.il, cfg.cbWrite, sq), c10Scenario(cfg, sq), Budget{}, nil)
+					return
+				}
+				for e := 0; e < nC10Events; e++ {
+					seq[i] = e
+					rec(i + 1)
+				}
+			}
+			rec(0)
+		}
+	}
+	// new data written from the low-threshold callback while a SACK is being processed: every
+	// schedule with one deviation (the write loop may run inside the window in which the read
+	// loop has released the association lock)
+	{
+		cbCfgs := []c10Cfg{{mtu: 1191, arwnd: 3000, cbWrite: true}}
+		if j.Thorough() {
+			cbCfgs = append(cbCfgs, c10Cfg{mtu: 100, arwnd: 1500, cbWrite: true, il: true})
+		}
+		alpha := []int{evWP, evW3, evSackAll, evSackAllSmall, evSackOne}
+		for _, cfg := range cbCfgs {
+			for _, e0 := range []int{evWP, evW3} {
+				for _, e1 := range alpha {
+					for _, e2 := range alpha {
+						sq := []int{e0, e1, e2}
+						j.Explore(fmt.Sprintf("FD/mtu%d/rw%d/il%v/cb/%v", cfg.mtu, cfg.arwnd, cfg.il, sq), c10Scenario(cfg, sq), Budget{D: 1}, nil)
+						if j.capped() {
+							return
+						}
+					}
+				}
+			}
 		}
 	}
 	// the two-endpoint transfer families with the flow monitor
